@@ -95,3 +95,24 @@ _old_register3 = register
 def register(X, EXTRA):
     _old_register3(X, EXTRA)
     EXTRA.append(lambda F: g4(F, X))
+
+
+def g5(F, X):
+    ct = X.strip_comments(X.read(X.FP + "/controller.rs"))
+    body = X.fn_body(ct, "run")
+    val = None
+    if body:
+        # the condition under which the any-errors flag is set after processing
+        m = re.search(r"if\s+([^{]*?)\{\s*self\s*\.\s*any_errors_flag\s*\.\s*store\s*\(\s*true", body, flags=re.S)
+        if m:
+            val = "any_fatal_err" in m.group(1) or "fatal" in m.group(1)
+    F.add("fatal_sets_any_errors_flag", "bool", val, True,
+          "controller.rs run: is the any-errors flag also set when a fatal error was received")
+
+
+_old_register4 = register
+
+
+def register(X, EXTRA):
+    _old_register4(X, EXTRA)
+    EXTRA.append(lambda F: g5(F, X))
